@@ -211,7 +211,10 @@ func rankOf(mode string, x int) int {
 	case "rev":
 		return -x
 	case "half":
-		return x / 2 // universes used with it are non-negative (TLA+ \div floors)
+		if x < 0 { // floor division, like TLA+ \div (Go's / truncates towards zero)
+			return -((-x + 1) / 2)
+		}
+		return x / 2
 	}
 	return x
 }
